@@ -198,6 +198,25 @@ def hasKleeneRun (c : EngineCkpt) : Bool :=
     let runs := kv.2.activeRuns ++ (kv.2.partitionedRuns.map (·.2)).flatten
     runs.any fun r => match r.kleeneEvents with | some (_ :: _) => true | _ => false
 
+def kleeneInSase (x : SaseCkpt) : Bool :=
+  (x.activeRuns ++ (x.partitionedRuns.map (·.2)).flatten).any fun r =>
+    match r.kleeneEvents with | some (_ :: _) => true | _ => false
+
+/-- `scut k n tags=… subms=b <SASE checkpoint>`: the same judge for a `SaseEngine` driven through its API -/
+def stepScut (ws : List String) (impl : String) : String :=
+  match ws with
+  | _k :: _n :: tags :: _subms :: tree =>
+    match (parseWhole tree).bind decSase with
+    | none => "BADLINE"
+    | some c =>
+      if impl == "same" then "ok"
+      else
+        let tagList := ((tags.drop 5).toString).splitOn ","
+        if tagList.contains "kleene-self-ref" && kleeneInSase c && impl.startsWith "diff" then
+          s!"KNOWN[C19-kleene-deferred] restored run lost its deferred Kleene predicate: {short impl}"
+        else s!"JUDGE C19 matches after the cut differ from the uninterrupted SaseEngine: {short impl}"
+  | _ => "BADLINE"
+
 /-- `cut k n tags=… subms=b <engine checkpoint>` => `same` | `diff at=… exp=[…] got=[…]` | `unreadable …` | `panic`.
 The judge is the property itself (outputs after the cut equal); a failing cut is classified under
 the one listed finding iff the program has a self-referencing Kleene predicate (tag from the
@@ -216,14 +235,111 @@ def stepCut (ws : List String) (impl : String) : String :=
         else s!"JUDGE C19 outputs after the cut differ from the uninterrupted run: {short impl}"
   | _ => "BADLINE"
 
+/-! ### C19: window components through their public API -/
+
+/-- `to_partition_key` of the field `k` (the generator uses strings, ints, or leaves it out) -/
+def pkOf (e : Event) : String :=
+  match e.data.lookup "k" with
+  | some (.str s) => s
+  | some (.int i) => toString i
+  | some (.bool b) => if b then "true" else "false"
+  | _ => "default"
+
+def idOf (e : Event) : String :=
+  match e.data.lookup "id" with
+  | some (.int i) => toString i
+  | _ => "?"
+
+def emTok (e : Event) : String := s!"{idOf e}@{e.ts}"
+
+def emText : Emit → String
+  | none => "-"
+  | some l => "[" ++ ",".intercalate (l.map emTok) ++ "]"
+
+def insertStr (x : String) : List String → List String
+  | [] => [x]
+  | y :: r => if x < y then x :: y :: r else y :: insertStr x r
+
+def emSorted (l : List Event) : String := "[" ++ ",".intercalate ((l.map emTok).foldr insertStr []) ++ "]"
+
+/-- one operation with the emission rendered as the harness renders it -/
+def stepW (c : WinCfg) : WinSt → WinOp → WinSt × String
+  | .tumbling w, .add e => let r := w.add c.dur e; (.tumbling r.1, emText r.2)
+  | .tumbling w, .wm t => let r := w.wm c.dur t; (.tumbling r.1, emText r.2)
+  | .sliding w, .add e => let r := w.add c.dur c.slide e; (.sliding r.1, emText r.2)
+  | .sliding w, .wm t => let r := w.wm c.dur c.slide t; (.sliding r.1, emText r.2)
+  | .count w, .add e => let r := w.add c.n e; (.count r.1, emText r.2)
+  | .slidingCount w, .add e => let r := w.add c.n c.m e; (.slidingCount r.1, emText r.2)
+  | .session w, .add e => let r := w.add c.dur e; (.session r.1, emText r.2)
+  | .session w, .wm t => let r := w.wm c.dur t; (.session r.1, emText r.2)
+  | .pTumbling ws, .add e => let r := partAdd pkOf { buf := [], start := none } (TumblingSt.add c.dur) ws e; (.pTumbling r.1, emText r.2)
+  | .pSliding ws, .add e => let r := partAdd pkOf { buf := [], lastEmit := none } (SlidingSt.add c.dur c.slide) ws e; (.pSliding r.1, emText r.2)
+  | .pSession ws, .add e => let r := partAdd pkOf { buf := [], last := none } (SessionSt.add c.dur) ws e; (.pSession r.1, emText r.2)
+  | w, .wm t => match (WinSt.step c pkOf w (.wm t)) with
+    | (w', out) => (w', match w with | .count _ | .slidingCount _ => "-" | _ => emSorted out)
+  | w, op => let r := WinSt.step c pkOf w op; (r.1, emSorted r.2)
+
+def freshOfKind (kind : String) : Option WinSt :=
+  if kind == "tumbling" then some (.tumbling { buf := [], start := none })
+  else if kind == "sliding" then some (.sliding { buf := [], lastEmit := none })
+  else if kind == "count" then some (.count { buf := [] })
+  else if kind == "slidingCount" then some (.slidingCount { buf := [], since := 0 })
+  else if kind == "session" then some (.session { buf := [], last := none })
+  else if kind == "pTumbling" then some (.pTumbling [])
+  else if kind == "pSliding" then some (.pSliding [])
+  else if kind == "pSession" then some (.pSession [])
+  else none
+
 structure St where
-  dummy : Unit := ()
+  cfg : WinCfg := {}
+  a : Option WinSt := none
+  b : Option WinSt := none
+
+/-- an operation on the uninterrupted window `a` and, after a cut, on the restored one `b` -/
+def stepWin (st : St) (op : WinOp) (impl : String) : St × String :=
+  match st.a with
+  | none => (st, "BADLINE")
+  | some a =>
+    let ra := stepW st.cfg a op
+    match st.b with
+    | none => ({ st with a := some ra.1 }, verdict ra.2 impl)
+    | some b =>
+      let rb := stepW st.cfg b op
+      let st' := { st with a := some ra.1, b := some rb.1 }
+      -- the property on the implementation's own answer: both copies emit the same
+      match (impl.splitOn " B=") with
+      | [ia, ib] =>
+        if (ia.drop 2).toString != ib then (st', s!"JUDGE C19 the restored window emits {ib}, the uninterrupted one {(ia.drop 2).toString}")
+        else (st', verdict s!"A={ra.2} B={rb.2}" impl)
+      | _ => (st', "BADLINE")
+
+/-- `wcut => <JSON of the checkpoint>`: the model's checkpoint must be the same tree; then restore -/
+def stepWcut (st : St) (impl : String) : St × String :=
+  match st.a with
+  | none => (st, "BADLINE")
+  | some a =>
+    if impl == "unreadable" || impl == "panic" then (st, s!"JUDGE C19 the window checkpoint is {impl}") else
+    let j := wire (encWC a.ckpt)
+    let b := (decWC j).map (WinSt.restore a.fresh)
+    ({ st with b := b }, if b.isNone then "DIFF model cannot read its own checkpoint" else verdict (Json.text j) impl)
 
 def step (st : St) (line : String) : St × String :=
   let (op, impl?) := splitCase line
   let impl := impl?.getD ""
   match words op with
-  | ["new"] => (st, "")
+  | ["new"] => ({}, "")
+  | ["wcfg", kind, dur, slide, n, m] =>
+    match freshOfKind kind, dur.toInt?, slide.toInt?, n.toNat?, m.toNat? with
+    | some w, some d, some sl, some n, some m => ({ cfg := { dur := d, slide := sl, n := n, m := m }, a := some w, b := none }, "")
+    | _, _, _, _, _ => (st, "BADLINE")
+  | "wadd" :: ws =>
+    match (parseWhole ws).bind decEventL with
+    | some e => stepWin st (.add e) impl
+    | none => (st, "BADLINE")
+  | ["wwm", t] => match t.toInt? with
+    | some t => stepWin st (.wm t) impl
+    | none => (st, "BADLINE")
+  | ["wcut"] => stepWcut st impl
   | "prog" :: _ => (st, "")
   | "op" :: _ => (st, "")
   | "ev" :: ws => (st, stepEv ws impl)
@@ -231,6 +347,7 @@ def step (st : St) (line : String) : St × String :=
   | "ck" :: "checkpoint" :: ws => (st, stepCk decCkpt encCkpt ws impl)
   | "det" :: variant :: ws => (st, stepDet variant ws impl)
   | "cut" :: ws => (st, stepCut ws impl)
+  | "scut" :: ws => (st, stepScut ws impl)
   | [] => (st, "")
   | _ => (st, "BADLINE")
 
